@@ -260,16 +260,18 @@ def _c14_jobs(tier):
 
 PLANS['C14'] = dict(
     engine='adapt', level='exploration', jobs=_c14_jobs, exhaustive=True,
-    minimums=lambda t: {'call_cases': 30000 if t == 'quick' else 120000, 'registry_hook_cases': 200},
+    minimums=lambda t: {'call_cases': 30000 if t == 'quick' else 120000, 'registry_hook_cases': 200, 'class_object_cases': 200},
     rule='Complete enumeration of the case product: __conform__ in {absent, returns None, returns value (plain method, staticmethod, function / functools.partial / callable object in the instance dict), body raises '
-         'ValueError/TypeError/AttributeError/KeyError, attribute access raises AttributeError / RuntimeError} x provided in '
+         'ValueError/TypeError/AttributeError/KeyError (also TypeError/AttributeError from a staticmethod, a function or a callable object in the '
+         'instance dict), attribute access raises AttributeError / RuntimeError} x provided in '
          '{no, via class, directly} x every hook list of length <= 2 (quick) / <= 3 (thorough) over {returns None, returns value, '
          'raises} x alternate in {absent, given, None} x custom __adapt__ in {none} + {own, inherited, inherited via a class that '
          'adds another interfacemethod, inherited two such levels deep} x {returns None, value, raises, delegates to the default}; '
          'for each: I(obj[, alt]) and I.__adapt__(obj); outcome (result identity, exception identity, TypeError args) and exact '
          'call log vs the reference; plus registry.adapter_hook vs queryAdapter.  exhaustive refers to this finite product.  '
          'Non-trivial: at least one callee is expected to run; distinct = distinct (expected call log, outcome kind).',
-    assumptions=['the unbound-__conform__ TypeError accommodation (adapting a class) is outside the product'],
+    assumptions=['adapting a class object whose unbound __conform__ cannot be called counts as "no __conform__" (documented in the source); '
+                 'checked in a separate small product together with classmethod __conform__s'],
 )
 
 
